@@ -26,7 +26,7 @@ def O(pid):
 
 PROPS = {
     "C01": P("model_checking", ARITH_RULE, 3000, 15000, *A("C01")),
-    "C02": P("model_checking", ARITH_RULE, 2500, 15000, *A("C02")),
+    "C02": P("model_checking", ARITH_RULE, 3000, 15000, *A("C02")),
     "C03": P("model_checking", ARITH_RULE, 2000, 8000, *A("C03")),
     "C04": P("model_checking", GEN_RULE, 8000, 150000, *O("C04"), count_all=True),
     "C05": P("model_checking", GEN_RULE, 6000, 150000, [("MC_Text.tla", "MC_Text_syn_quick.cfg")], [("MC_Text.tla", "MC_Text_syn_thorough.cfg")], count_all=True),
